@@ -76,7 +76,12 @@ def _real_changes(wt, root_id):
 
 def _model_changes(w):
     out = {}
-    for fid, (ok, nk) in w.changes().items():
+    ch = dict(w.changes())
+    # entries below a directory that vanished from disk are missing too, although their own record is unchanged
+    for fid, e in w.ents.items():
+        if fid != model.ROOT and fid not in ch and gen._under_missing(w, fid) and w.basis and fid in w.basis:
+            ch[fid] = (w.basis[fid].key(), e.key())
+    for fid, (ok, nk) in ch.items():
         if fid == model.ROOT:
             continue
         old = (ok[0], ok[1], ok[2], bool(ok[4])) if ok else None
@@ -208,6 +213,17 @@ def _g_cmp(ctx, w, wt, where, ops):
         if q not in rv and not any(r.startswith(q + "/") for r in mv):
             del mv[q]  # a directory whose only versioned content is such an unlisted symlink
     ctx.count("git_cmp_tree")
+    seen = ctx.info.setdefault("_seen_paths", set())
+    seen.update(mv_full)
+    seen.update(rv)
+    with wt.lock_read():
+        for q in sorted(seen):
+            ctx.count("git_is_versioned")
+            exp = q in mv_full
+            got = bool(wt.is_versioned(q))
+            if got != exp and not (q in mv_full and q not in mv):
+                ctx.fail("git:is_versioned-vs-model:%s" % where, "after %s: is_versioned(%r)=%s but the model says %s" % (ops[-1].get("op") if ops else None, q, got, exp),
+                         {"ops": [gen.op_json(o) for o in ops]}, stop=True)
     if rv != mv:
         diffs = [(p, "real=%r" % (rv.get(p),), "model=%r" % (mv.get(p),)) for p in sorted(set(rv) | set(mv)) if rv.get(p) != mv.get(p)]
         ctx.fail("git:tree-vs-model:%s:%s" % (where, "paths" if set(rv) != set(mv) else "attrs"), "after %s: %r" % (ops[-1].get("op") if ops else None, diffs[:4]),
@@ -339,9 +355,40 @@ def case(ctx):
     kinds = []
     ctx.info["ops"] = ops
     hold = None  # lock held across several ops
-    for step in range(nops):
+    script = []
+    if rng.random() < 0.25:
+        # hostile preamble: sibling directories whose names are string prefixes of each other, populated and committed;
+        # later one of them may vanish from disk / be removed / renamed
+        a, b = rng.choice([("d1", "d10"), ("sub", "sub2"), ("f1", "f10")])
+        script = [{"op": "mkdir", "path": a}, {"op": "mkdir", "path": b},
+                  {"op": "mkfile", "path": a + "/x", "content": b"ax\n"}, {"op": "mkfile", "path": b + "/y", "content": b"by\n"},
+                  {"op": "mkdir", "path": b + "/in"}, {"op": "mkfile", "path": b + "/in/z", "content": b"bz\n"},
+                  {"op": "add", "path": a, "id": "pa"}, {"op": "add", "path": b, "id": "pb"}, {"op": "add", "path": a + "/x", "id": "pax"},
+                  {"op": "add", "path": b + "/y", "id": "pby"}, {"op": "add", "path": b + "/in", "id": "pbin"}, {"op": "add", "path": b + "/in/z", "id": "pbz"},
+                  {"op": "commit"}, {"op": rng.choice(["delete_disk", "remove", "unversion", "delete_disk"]), "path": rng.choice([a, a, b])},
+                  {"op": "commit"}]
+        ctx.hist("prefix-sibling-preamble")
+    elif rng.random() < 0.15:
+        # a directory holding one committed child and several added-but-uncommitted ones is unversioned / removed as a whole
+        dn = rng.choice(names.dirs)
+        script = [{"op": "mkdir", "path": dn}, {"op": "mkfile", "path": dn + "/a", "content": b"a\n"}, {"op": "add", "path": dn, "id": "qd"},
+                  {"op": "add", "path": dn + "/a", "id": "qa"}, {"op": "commit"}]
+        for k, nm in enumerate(rng.sample(["n1", "n2", "n3", "b", "z"], rng.randint(2, 4))):
+            script += [{"op": "mkfile", "path": dn + "/" + nm, "content": b"new %d\n" % k}, {"op": "add", "path": dn + "/" + nm, "id": "qn%d" % k}]
+        script += [{"op": rng.choice(["unversion", "unversion", "remove"]), "path": dn}]
+        ctx.hist("uncommitted-children-preamble")
+    nops += len(script)
+    for step in range(nops + 1):
         r = rng.random()
-        if r < 0.08 and w.ents.keys() - {model.ROOT}:
+        if script:
+            op = script.pop(0)
+            if op["op"] == "commit" and not w.changes():
+                continue
+        elif step == nops:
+            if not w.changes():
+                break
+            op = {"op": "commit"}
+        elif r < 0.08 and w.ents.keys() - {model.ROOT}:
             op = {"op": "commit"}
         elif r < 0.12 and w.basis is not None:
             op = {"op": "revert"}
